@@ -171,6 +171,11 @@ ImportBest(b) == /\ Importable(b) /\ ~WriteErr(b)
 ImportSide(b) == /\ Importable(b)
                  /\ stored' = stored \cup {b}
                  /\ UNCHANGED <<best, evRows, trRows, up, logging>>
+\* packer_loop.go proposeAndCommit -> commitBlock: a block the node packs itself goes through the same commit. Its parent is
+\* the parent of the packing FLOW, scheduled some time before - not necessarily the best block any more (a sibling, or a
+\* whole other branch, may have become best meanwhile). The old branch is what the REPOSITORY calls best at commit time:
+\* whatever the flow's parent was, the log db afterwards holds the rows of the new canonical chain.
+Pack(b, becomesBest) == IF becomesBest THEN ImportBest(b) ELSE ImportSide(b)
 \* the process dies after the log transaction of a would-be best block was committed and before the block is stored
 CrashMid(b) == /\ Importable(b) /\ ~WriteErr(b)
                /\ evRows' = WriteLogs(evRows, "E", best, b)
